@@ -16,6 +16,12 @@ nice cargo test --offline -j 8 -p oxidize-pdf --test $name >> $L 2>&1; r0=$?
 git apply $S/patch.diff || { echo "$id patch-does-not-apply"; exit 2; }
 echo "== demo with patch" >> $L
 nice cargo test --offline -j 8 -p oxidize-pdf --test $name >> $L 2>&1; r1=$?
+if [ "$SUITE" = none ]; then
+  echo "== suite with patch: NOT RUN (time budget) — demonstration only" >> $L
+  git checkout -q -- . ; rm -f oxidize-pdf-core/tests/$name.rs
+  echo "$dir demo_unchanged_exit=$r0 demo_patched_exit=$r1 suite_regressions_exit=not-run suite_mode=none" | tee -a $L
+  exit 0
+fi
 left=$(vp status 2>/dev/null | awk '/minutes_left/{print int($2)}')
 if [ -e /tmp/confirm_fast ] || { [ -n "$left" ] && [ "$left" -lt ${FAST_BELOW:-150} ]; }; then
   # reduced confirmation (time budget): the library's unit tests plus every integration-test binary whose source names a
